@@ -54,7 +54,8 @@ EXPECTED = {
         "defconnectStart(self):ifnotself.is_connected:uri=self.uriself._conn=AsynConn(uri,self._eol_read,"
         "default_settings=self.default_settings)self.is_connected=Trueself.checkHWIdent()",
     'IOBase.closeConnection':
-        "defcloseConnection(self):self._conn.disconnect()self._conn=Noneself.is_connected=False",
+        "defcloseConnection(self):self._conn.disconnect()self._conn=Noneself.is_connected=False"
+        "self._last_error=self._last_erroror'disconnected'",
     'IOBase.doPoll': "defdoPoll(self):self.read_is_connected()",
     'IOBase.read_is_connected':
         "defread_is_connected(self):ifself.is_connected:returnTruetry:self.connectStart()ifself._last_error:"
@@ -207,12 +208,12 @@ def read_is_connected_is_wrapped():
 
 def trigger_all_registered():
     """__pollThread: a communicator registers the reconnect callback 'trigger_polls' that resets last_main / last_slow
-    of every polled module and sets the trigger event"""
+    of every polled module, sets the trigger event and returns True (so that callCallbacks keeps it registered)"""
     f = find_func(find_class(parse(FMB), 'Module'), '__pollThread')
     for d in walk_type(f, ast.FunctionDef):
         if d.name == 'trigger_all':
             body = ''.join(''.join(src(s).split()) for s in d.body)
-            if body != 'forminpolled_modules:m.pollInfo.last_main=0m.pollInfo.last_slow=0trg.set()':
+            if body != 'forminpolled_modules:m.pollInfo.last_main=0m.pollInfo.last_slow=0trg.set()returnTrue':
                 raise Shape(f'trigger_all body: {body}')
             reg = [c for c in walk_type(f, ast.Call) if ''.join(src(c.func).split()) == 'self.registerReconnectCallback']
             if len(reg) == 1 and ''.join(src(reg[0]).split()) == "self.registerReconnectCallback('trigger_polls',trigger_all)":
